@@ -465,6 +465,18 @@ func (dd *msgpipelineDelivery) BodyNonAtomic(ctx context.Context, c module.Statu
 		setStatusAll(err)
 		return
 	}
+	for blk := range dd.rcptModifiersState {
+		if err := dd.checkRunner.checkBody(ctx, blk.checks, header, body); err != nil {
+			setStatusAll(err)
+			return
+		}
+	}
+
+	// Same as in Body: quarantine flag, DMARC policy, Authentication-Results.
+	if err := dd.checkRunner.applyResults(dd.d.Hostname, &header); err != nil {
+		setStatusAll(err)
+		return
+	}
 
 	// Run modifiers after Authentication-Results addition to make
 	// sure signatures, etc will cover it.
